@@ -82,6 +82,7 @@ type CbRec struct {
 	Pool   *[]string `json:"pool,omitempty"`
 	Which  string    `json:"which,omitempty"`
 	Perm   []int     `json:"perm,omitempty"`
+	Body   *[]string `json:"body,omitempty"` // ProcessBlock / ProcessPreBlock: hashes of the transactions the library put into the block ("nil" = none)
 }
 
 // Node wraps one real DBFT instance.
@@ -246,7 +247,7 @@ func (n *Node) build() {
 				ok = false
 			}
 			rec := bb.Rec
-			n.cb(CbRec{K: "ProcessBlock", Block: &rec, Ok: boolp(ok), At: n.Proj(bb)})
+			n.cb(CbRec{K: "ProcessBlock", Block: &rec, Ok: boolp(ok), At: n.Proj(bb), Body: bodyOf(bb.txs)})
 			if !ok {
 				return fmt.Errorf("application refused the block")
 			}
@@ -325,7 +326,7 @@ func (n *Node) build() {
 					ok = false
 				}
 				rec := bb.Rec
-				n.cb(CbRec{K: "ProcessPreBlock", Block: &rec, Ok: boolp(ok), At: n.ProjPre(bb)})
+				n.cb(CbRec{K: "ProcessPreBlock", Block: &rec, Ok: boolp(ok), At: n.ProjPre(bb), Body: bodyOf(bb.txs)})
 				if !ok {
 					return fmt.Errorf("application refused the pre-block")
 				}
@@ -338,6 +339,19 @@ func (n *Node) build() {
 	}
 	n.D = d
 	n.started = false
+}
+
+// bodyOf lists the transactions the library handed to SetTransactions, by hash.
+func bodyOf(txs []dbft.Transaction[H]) *[]string {
+	r := make([]string, len(txs))
+	for i, t := range txs {
+		if t == nil {
+			r[i] = "nil"
+		} else {
+			r[i] = string(t.Hash())
+		}
+	}
+	return &r
 }
 
 func ctxBlockRec(ctx *dbft.Context[H]) BlockRec {
